@@ -23,11 +23,12 @@ recursive-descent parser for the *expression*.  Grammar (nothing else is accepte
             | 'gen_bool(' expr ')'                 (after the site's receiver normalisation `rng.gen_bool` -> `gen_bool`;
                                                     an UNINTERPRETED function symbol Rat -> Bool)
             | 'Ok(' expr ')' | 'Err(())'           (Result<_, ()> as Option)
-            | 'vec![' expr (',' expr)* ']'         (a List of scalars)
+            | 'vec![' expr (',' expr)* ']' | '&[' expr (',' expr)* ']'       (a List of scalars)
+            | f '(' expr (',' expr)* ')'           f one of the site's declared UNINTERPRETED function symbols
             | 'if' expr block 'else' (block | if-expr)
             | 'match' expr '{' (pat ('|' pat)* '=>' expr ','?)* '}'      pat := '(' b ',' b ')' | b ;  b := true|false|_
             | block
-    block  := '{' ('let' ident '=' expr ';')* expr '}'
+    block  := '{' ('let' (ident | '(' ident ',' ident ')') '=' expr ';')* expr '}'
 
 Types: f64 -> Rat (exact; rounding / NaN / inf / -0.0 are NOT modelled), usize -> Nat (`-` is truncated subtraction:
 Rust panics (debug) or wraps (release) where Nat gives 0), i32 -> Int (no overflow), bool -> Bool, (bool, bool) ->
@@ -153,7 +154,7 @@ class Source:
 
 TOKEN = re.compile(
     r"\s*(?:(?P<float>\d+\.\d*(?!\.)|\d+\.(?=\s|\)|,|;|$))|(?P<int>\d+)|(?P<id>[A-Za-z_]\w*(?:::[A-Za-z_]\w*)*)"
-    r"|(?P<op>=>|==|!=|<=|>=|&&|\|\||>>|[-+*/%()<>!,.{}|=;\[\]]))"
+    r"|(?P<op>=>|==|!=|<=|>=|&&|\|\||>>|[-+*/%()<>!,.{}|=;\[\]&]))"
 )
 
 
@@ -187,10 +188,11 @@ KEYWORDS = {"if", "else", "match", "let", "as", "true", "false", "max", "min", "
 
 
 class Parser:
-    def __init__(self, toks, site):
+    def __init__(self, toks, site, uninterp=()):
         self.t = toks
         self.i = 0
         self.site = site
+        self.uninterp = set(uninterp)   # names of the site's uninterpreted function symbols
 
     def peek(self, k=0):
         return self.t[self.i + k] if self.i + k < len(self.t) else ("eof", "")
@@ -285,6 +287,19 @@ class Parser:
             return ("not", self.p_unary())
         if self.at("op", "*"):
             self.fail("dereference `*` (must be removed by the site's receiver normalisation)")
+        if self.at("op", "&"):
+            self.next()
+            if not self.at("op", "["):
+                self.fail("reference `&` (only the slice literal `&[a, b, …]`)")
+            self.next()
+            items = [self.expr()]
+            while self.at("op", ","):
+                self.next()
+                if self.at("op", "]"):
+                    break
+                items.append(self.expr())
+            self.expect("op", "]")
+            return ("list", items)
         return self.p_postfix()
 
     def p_postfix(self):
@@ -309,6 +324,19 @@ class Parser:
         lets = []
         while self.at("id", "let"):
             self.next()
+            if self.at("op", "("):
+                self.next()
+                a = self.expect("id")[1]
+                self.expect("op", ",")
+                b = self.expect("id")[1]
+                self.expect("op", ")")
+                if a in KEYWORDS or b in KEYWORDS or "::" in a + b or a == b:
+                    self.fail("let pattern `(%s, %s)`" % (a, b))
+                self.expect("op", "=")
+                e = self.expr()
+                self.expect("op", ";")
+                lets.append(((a, b), e))
+                continue
             name = self.expect("id")[1]
             if name in KEYWORDS or "::" in name:
                 self.fail("let pattern `%s`" % name)
@@ -319,7 +347,7 @@ class Parser:
         e = self.expr()
         self.expect("op", "}")
         for name, v in reversed(lets):
-            e = ("let", name, v, e)
+            e = ("letpair", name[0], name[1], v, e) if isinstance(name, tuple) else ("let", name, v, e)
         return e
 
     def p_pat(self):
@@ -439,21 +467,32 @@ class Parser:
                 self.fail("keyword / path `%s`" % val)
             self.next()
             if self.at("op", "("):
-                self.fail("call of `%s(...)`" % val)
+                if val not in self.uninterp:
+                    self.fail("call of `%s(...)`" % val)
+                self.next()
+                args = []
+                while not self.at("op", ")"):
+                    args.append(self.expr())
+                    if self.at("op", ","):
+                        self.next()
+                    elif not self.at("op", ")"):
+                        self.fail("argument list of `%s`" % val)
+                self.next()
+                return ("app", val, args)
             return ("var", val)
         self.fail("unexpected %r" % (val or "end of expression"))
 
 
-def parse_expr(text, site):
-    p = Parser(lex(text, site), site)
+def parse_expr(text, site, uninterp=()):
+    p = Parser(lex(text, site), site, uninterp)
     e = p.expr()
     p.done()
     return e
 
 
-def parse_block_body(text, site):
+def parse_block_body(text, site, uninterp=()):
     """`let` chain + tail expression, as the inside of a block"""
-    p = Parser(lex("{" + text + "}", site), site)
+    p = Parser(lex("{" + text + "}", site), site, uninterp)
     e = p.p_block()
     p.done()
     return e
@@ -470,6 +509,8 @@ def tyname(t):
             return "Option " + tyname(t[1])
         if t[0] == "list":
             return "List " + tyname(t[1])
+        if t[0] == "fn":
+            return "(" + " → ".join(tyname(x) for x in list(t[1]) + [t[2]]) + ")"
     return t
 
 
@@ -508,6 +549,8 @@ class Emit:
         if k == "var":
             if e[1] not in env:
                 self.fail("identifier `%s` is not in the declared environment of this site" % e[1])
+            if isinstance(env[e[1]], tuple) and env[e[1]][0] == "fn":
+                self.fail("uninterpreted function `%s` used without arguments" % e[1])
             return e[1], env[e[1]]
         if k == "neg":
             a, t = self.go(e[1], env, ind)
@@ -626,6 +669,25 @@ class Emit:
             env2[name] = ta
             b, tb = self.go(body, env2, ind)
             return "(let %s : %s := %s\n%s%s)" % (name, tyname(ta), a, pad, b), tb
+        if k == "app":
+            _, f, args = e
+            ft = env.get(f)
+            if not (isinstance(ft, tuple) and ft[0] == "fn"):
+                self.fail("`%s` is not a declared uninterpreted function of this site" % f)
+            parts = [self.go(x, env, ind) for x in args]
+            if [t for _, t in parts] != list(ft[1]):
+                self.fail("`%s` applied to (%s), declared (%s)" % (f, ", ".join(tyname(t) for _, t in parts), ", ".join(tyname(t) for t in ft[1])))
+            self.note("`%s` is an uninterpreted function symbol of type %s" % (f, tyname(ft)))
+            return "(%s %s)" % (f, " ".join(a for a, _ in parts)), ft[2]
+        if k == "letpair":
+            _, n1, n2, v, body = e
+            a, ta = self.go(v, env, ind)
+            if not (isinstance(ta, tuple) and ta[0] == "tuple" and len(ta) == 3):
+                self.fail("`let (%s, %s) = …` of a %s" % (n1, n2, tyname(ta)))
+            env2 = dict(env)
+            env2[n1], env2[n2] = ta[1], ta[2]
+            b, tb = self.go(body, env2, ind)
+            return "(let (%s, %s) := %s\n%s%s)" % (n1, n2, a, pad, b), tb
         if k == "gen_bool":
             a, ta = self.go(e[1], env, ind)
             if ta != "Rat":
@@ -683,6 +745,8 @@ def has_gen_bool(e):
         return True
     if e and e[0] == "list":
         return any(has_gen_bool(x) for x in e[1])
+    if e and e[0] == "app":
+        return any(has_gen_bool(x) for x in e[2])
     return any(has_gen_bool(x) if isinstance(x, tuple) else (isinstance(x, list) and any(has_gen_bool(y[1]) for y in x)) for x in e[1:])
 
 
@@ -1130,6 +1194,9 @@ def run(repo):
                                         ("into_qmc_field_matrix", "longitudinal", "full matrix handed to `make_interaction_and_offset` per variable (only under the field guard)"))):
         g.translate(nm, site, src, f["start"], sk.group(i + 1), parse_expr(sk.group(i + 1), site), [(var, "Rat")], doc + " in `into_qmc`", want=("list", "Rat"), what=fname)
 
+    # ---- 15. replicated closures of qmc_ising.rs / qmc_runner.rs ---------------------------------
+    replicated_closures(g, ISING, RUNNER)
+
     # ---- 11. get_mat_var_size: the even-exponent rule ------------------------------------------
     src = g.file(RUNNER)
     fname = "get_mat_var_size"
@@ -1146,6 +1213,217 @@ def run(repo):
     return g
 
 
+def strip_debug_asserts(text, site):
+    """remove `debug_assert!(…);` / `debug_assert_eq!(…);` statements (balanced parentheses / braces inside)"""
+    out = []
+    i = 0
+    n = 0
+    while True:
+        m = re.compile(r"debug_assert(?:_eq|_ne)?!\s*\(").search(text, i)
+        if not m:
+            out.append(text[i:])
+            break
+        out.append(text[i:m.start()])
+        depth = 0
+        j = m.end() - 1
+        while j < len(text):
+            if text[j] in "({[":
+                depth += 1
+            elif text[j] in ")}]":
+                depth -= 1
+                if depth == 0:
+                    break
+            j += 1
+        if j >= len(text):
+            raise Unknown(site, "unbalanced debug_assert!")
+        k = j + 1
+        while k < len(text) and text[k].isspace():
+            k += 1
+        if k >= len(text) or text[k] != ";":
+            raise Unknown(site, "debug_assert! not used as a statement")
+        i = k + 1
+        n += 1
+    return "".join(out), n
+
+
+def expect_sites(src, ms, expect, what):
+    """the matches must lie in exactly the expected functions (with multiplicity, in source order)"""
+    where = [src.enclosing(m.start()) for m in ms]
+    if where != expect:
+        raise Unknown(src.rel + "::" + what, "expected exactly in %s, found in %s" % (expect, where))
+    return where
+
+
+def closure_after(src, off, site):
+    """text of the `{ … }` block that starts at the first `{` at or after `off`"""
+    i0 = src.src.index("{", off)
+    i1 = match_brace(src.src, i0, site)
+    return i0, i1
+
+
+def replicated_closures(g, ISING, RUNNER):
+    src = g.file(ISING)
+    rsrc = g.file(RUNNER)
+
+    # (a) the field-bond test of every cluster-weight / ising-ratio closure -----------------------
+    ms = all_matches(src, r"let is_long_field_bond = ([^;]*);", ISING)
+    expect_sites(src, ms, ["single_cluster_step", "single_rvb_sweep", "timestep", "timestep"], "is_long_field_bond closures")
+    terms = []
+    names = []
+    for m in ms:
+        fn = src.enclosing(m.start())
+        before = " ".join(src.src[max(0, m.start() - 200):m.start()].split())
+        if before.endswith("|op| { let bond = op.get_bond();"):
+            kind = "ising_ratio"
+        elif before.endswith("Some(|node: &M::Node| -> f64 { let bond = node.get_op_ref().get_bond();"):
+            kind = "cluster_weight"
+        else:
+            raise Unknown("%s::%s::is_long_field_bond" % (ISING, fn), "closure head is neither `|op| { let bond = op.get_bond();` nor `Some(|node: &M::Node| -> f64 { let bond = node.get_op_ref().get_bond();`")
+        name = "%s_%s" % (kind, fn)
+        site = "%s::%s::%s closure" % (ISING, fn, kind)
+        rest = src.src[m.end():]
+        mm = re.match(r"\s*if ", rest)
+        if not mm:
+            raise Unknown(site, "`let is_long_field_bond = …;` is not followed by the `if` that yields the closure's value")
+        # the if/else expression extends to the brace that closes the closure: take up to the closing brace of the else block
+        j = m.end() + mm.start()
+        i0 = src.src.index("{", j)
+        i1 = match_brace(src.src, i0, site)
+        mm2 = re.match(r"\s*else\s*", src.src[i1 + 1:])
+        if not mm2:
+            raise Unknown(site, "`if` without `else`")
+        e0 = i1 + 1 + mm2.end()
+        if src.src[e0] != "{":
+            raise Unknown(site, "`else` not followed by a block")
+        e1 = match_brace(src.src, e0, site)
+        tail = " ".join(src.src[e1 + 1:e1 + 40].split())
+        if not (tail.startswith("},") or tail.startswith("}),")):
+            raise Unknown(site, "the `if … else …` is not the closure's final expression")
+        ifexpr, ndbg = strip_debug_asserts(src.src[j:e1 + 1], site)
+        text = src.src[m.start():e1 + 1]
+        fbody = src.body(src.fn(fn, site))
+        if len(re.findall(r"let nedges = (?:self\.)?edges\.len\(\);", fbody)) != 1:
+            raise Unknown(site, "expected exactly one `let nedges = [self.]edges.len();` in the function")
+        if len(re.findall(r"let nvars = (?:self\.get_nvars\(\)|state\.len\(\));", fbody)) != 1:
+            raise Unknown(site, "expected exactly one `let nvars = self.get_nvars() | state.len();` in the function")
+        ast = parse_block_body("let is_long_field_bond = %s; %s" % (m.group(1), ifexpr), site)
+        if name in names:
+            raise Unknown(site, "two %s closures in `%s`" % (kind, fn))
+        names.append(name)
+        em_doc = ("the `%s` closure of `%s` as a function of the operator's bond index (`%d` debug assertions dropped): weight ratio of the "
+                  "operator under a flip of its variable — 1 unless it is a longitudinal-field bond" % (kind, fn, ndbg))
+        body_, _ = g.translate(name, site, src, m.start(), text, ast, [("bond", "Nat"), ("nedges", "Nat"), ("nvars", "Nat")], em_doc, want="Rat")
+        terms.append((site, body_))
+    if sorted(names) != ["cluster_weight_single_cluster_step", "cluster_weight_timestep", "ising_ratio_single_rvb_sweep", "ising_ratio_timestep"]:
+        raise Unknown(ISING + "::is_long_field_bond closures", "expected cluster_weight in single_cluster_step, timestep and ising_ratio in single_rvb_sweep, timestep; found %s" % names)
+    same(terms, "field-bond closure (`bond >= nedges + nvars` ⇒ 0.0 else 1.0)")
+
+    # (b) the RVB diagonal-edge-weight closure, four copies ---------------------------------------
+    ms = all_matches(src, r"\|bond, sa, sb\| \{", ISING)
+    expect_sites(src, ms, ["single_rvb_sweep", "single_rvb_sweep", "timestep", "timestep"], "RVB edge-weight closures `|bond, sa, sb| {`")
+    if len(re.findall(r"\brvb_update(?:_with_ising_weight)?\(", src.src)) != 4:
+        raise Unknown(ISING + "::rvb_update calls", "expected exactly four `rvb_update[_with_ising_weight](` calls")
+    f = src.fn("vars_for_bond", ISING + "::vars_for_bond")
+    if " ".join(src.body(f).split()) != "let e = &self.edges[bond].0; (e[0], e[1])":
+        raise Unknown(ISING + "::vars_for_bond", "body is no longer `let e = &self.edges[bond].0; (e[0], e[1])`")
+    FN_VFB = ("fn", ("Nat",), ("tuple", "Nat", "Nat"))
+    FN_HAM = ("fn", (("list", "Nat"), "Nat", ("list", "Bool"), ("list", "Bool")), "Rat")
+    terms = []
+    count = {}
+    for m in ms:
+        fn = src.enclosing(m.start())
+        count[fn] = count.get(fn, 0) + 1
+        variant = "field" if count[fn] == 1 else "nofield"     # source order: the `h != 0` branch comes first
+        name = "rvb_edge_weight_%s_%s" % (fn, variant)
+        site = "%s::%s::RVB edge-weight closure #%d" % (ISING, fn, count[fn])
+        i0, i1 = closure_after(src, m.end() - 1, site)
+        txt = src.src[i0 + 1:i1]
+        txt = normalise(txt, [("edges.vars_for_bond", "vars_for_bond"), ("ham.hamiltonian", "ham_hamiltonian")], site)
+        ast = parse_block_body(txt, site, uninterp=("vars_for_bond", "ham_hamiltonian"))
+        body_, _ = g.translate(name, site, src, m.start(), src.src[m.start():i1 + 1], ast,
+                               [("vars_for_bond", FN_VFB), ("ham_hamiltonian", FN_HAM), ("bond", "Nat"), ("sa", "Bool"), ("sb", "Bool")],
+                               "the diagonal edge weight closure `|bond, sa, sb| …` handed to `rvb_update%s` in `%s`; `vars_for_bond` = `edges.vars_for_bond`, "
+                               "`ham_hamiltonian` = `ham.hamiltonian` (both uninterpreted)" % ("_with_ising_weight" if variant == "field" else "", fn), want="Rat")
+        terms.append((site, body_))
+    same(terms, "RVB edge-weight closure")
+
+    # (c) flip probability of the cluster updates and of the free-spin refresh ----------------------
+    terms = []
+    for sr, rel, expect in ((src, ISING, ["single_cluster_step", "single_cluster_step", "timestep", "timestep"]), (rsrc, RUNNER, ["cluster_update"])):
+        ms = all_matches(sr, r"\.flip_each_cluster(_ising_symmetry)?_rng\(\s*([^,()]*),", rel)
+        expect_sites(sr, ms, expect, "flip_each_cluster[_ising_symmetry]_rng calls")
+        if len(re.findall(r"flip_each_cluster\w*\(", sr.src)) != len(expect):
+            raise Unknown(rel + "::flip_each_cluster calls", "a cluster-flip call other than `.flip_each_cluster[_ising_symmetry]_rng(<p>, …`")
+        seen = set()
+        for m in ms:
+            fn = sr.enclosing(m.start())
+            variant = "sym" if m.group(1) else "field"
+            name = "cluster_flip_prob_%s_%s" % (fn, variant)
+            site = "%s::%s::flip_each_cluster%s_rng" % (rel, fn, m.group(1) or "")
+            if name in seen:
+                raise Unknown(site, "called twice in `%s`" % fn)
+            seen.add(name)
+            body_, _ = g.translate(name, site, sr, m.start(2), m.group(0), parse_expr(m.group(2), site), [],
+                                   "flip probability handed to `flip_each_cluster%s_rng` in `%s` (%s)" % (m.group(1) or "", fn, rel), want="Rat")
+            terms.append((site, body_))
+    same(terms, "cluster flip probability")
+    terms = []
+    for sr, rel, expect in ((src, ISING, ["single_cluster_step", "timestep"]), (rsrc, RUNNER, ["flip_free_bits"])):
+        ms = all_matches(sr, r"state\.iter_mut\(\)\.enumerate\(\)\.for_each\(\|\(var, state\)\| \{\s*if !\w+\.does_var_have_ops\(var\) \{\s*\*state = rng\.gen_bool\(([^()]*)\);\s*\}\s*\}\);", rel)
+        expect_sites(sr, ms, expect, "free-spin refresh loops")
+        if len(re.findall(r"gen_bool\(", sr.src)) != len(expect):
+            raise Unknown(rel + "::gen_bool", "a `gen_bool(` call outside the %d free-spin refresh loops" % len(expect))
+        for m in ms:
+            fn = sr.enclosing(m.start())
+            site = "%s::%s::free-spin refresh" % (rel, fn)
+            body_, _ = g.translate("free_refresh_prob_" + fn, site, sr, m.start(1), m.group(0), parse_expr(m.group(1), site), [],
+                                   "probability of the free-spin refresh `if !does_var_have_ops(var) { *state = rng.gen_bool(…) }` in `%s` (%s)" % (fn, rel), want="Rat")
+            terms.append((site, body_))
+    same(terms, "free-spin refresh probability")
+
+    # (d) steps_to_run -----------------------------------------------------------------------------
+    ms = all_matches(src, r"let steps_to_run = ([^;]*);", ISING)
+    expect_sites(src, ms, ["single_rvb_sweep", "timestep"], "`let steps_to_run = …;`")
+    terms = []
+    for m in ms:
+        fn = src.enclosing(m.start())
+        site = "%s::%s::steps_to_run" % (ISING, fn)
+        txt = m.group(1)
+        if fn == "single_rvb_sweep":
+            mm = re.fullmatch(r"updates_in_sweep\.unwrap_or\((.*)\)", txt, re.S)
+            if not mm:
+                raise Unknown(site, "no longer `updates_in_sweep.unwrap_or(<default>)`")
+            txt = mm.group(1)
+        txt = normalise(txt, [("state.len()", "state_len")], site, required=["state.len()"])
+        body_, _ = g.translate("steps_to_run_" + fn, site, src, m.start(), m.group(0), parse_expr(txt, site), [("state_len", "Nat")],
+                               "number of RVB proposals per sweep in `%s`%s; `state_len` = `state.len()`" % (fn, " (the default of `updates_in_sweep.unwrap_or(…)`)" if fn == "single_rvb_sweep" else ""), want="Nat")
+        terms.append((site, body_))
+    same(terms, "steps_to_run")
+
+    # (e) the `h` closures --------------------------------------------------------------------------
+    ms = all_matches(src, r"let h = \|vars: &\[usize\], bond: usize, input_state: &\[bool\], output_state: &\[bool\]\| \{", ISING)
+    expect_sites(src, ms, ["single_diagonal_step", "single_rvb_sweep", "set_enable_heatbath", "timestep"], "`let h = |vars, bond, input_state, output_state| {`")
+    if len(re.findall(r"let h = ", src.src)) != 4:
+        raise Unknown(ISING + "::h closures", "a `let h = ` of another shape")
+    FN_H = ("fn", (("list", "Nat"), "Nat", ("list", "Bool"), ("list", "Bool")), "Rat")
+    terms = []
+    for m in ms:
+        fn = src.enclosing(m.start())
+        site = "%s::%s::h closure" % (ISING, fn)
+        i0, i1 = closure_after(src, m.end() - 1, site)
+        fbody = " ".join(src.body(src.fn(fn, site)).split())
+        if fbody.count("let hinfo = HamInfo { edges, transverse, longitudinal, nvars, };") != 1 or fbody.count("let transverse = self.transverse;") != 1:
+            raise Unknown(site, "`let hinfo = HamInfo { edges, transverse, longitudinal, nvars, };` / `let transverse = self.transverse;` in the function")
+        txt = normalise(src.src[i0 + 1:i1], [("Self::hamiltonian(&hinfo,", "hamiltonian_hinfo(")], site, required=["Self::hamiltonian(&hinfo,"])
+        ast = parse_expr(txt, site, uninterp=("hamiltonian_hinfo",))
+        body_, _ = g.translate("h_closure_" + fn, site, src, m.start(), src.src[m.start():i1 + 1], ast,
+                               [("hamiltonian_hinfo", FN_H), ("vars", ("list", "Nat")), ("bond", "Nat"), ("input_state", ("list", "Bool")), ("output_state", ("list", "Bool"))],
+                               "the matrix-element closure `h` of `%s`; `hamiltonian_hinfo` = `Self::hamiltonian(&hinfo, …)` with `hinfo` the `HamInfo` of the sampler's own fields" % fn, want="Rat")
+        terms.append((site, body_))
+    same(terms, "h closure")
+
+
+
 def same(terms, what):
     """all sites must have produced the same term; the deviating site(s) are the ones outside the largest group"""
     groups = {}
@@ -1154,6 +1432,10 @@ def same(terms, what):
     if len(groups) <= 1:
         return
     major = max(groups, key=lambda t: (len(groups[t]), -[x[1] for x in terms].index(t)))
+    if sum(1 for t in groups if len(groups[t]) == len(groups[major])) > 1:
+        # no majority (e.g. two sites): name all of them
+        raise Unknown(" / ".join(site for site, _ in terms), "%s: the sites disagree (no majority): %s" % (
+            what, "; ".join("%s `%s`" % (groups[t][0], " ".join(t.split())) for t in groups)))
     for site, t in terms:
         if t != major:
             raise Unknown(site, "%s differs from the other sites: here `%s`, at %s `%s`" % (what, " ".join(t.split()), groups[major][0], " ".join(major.split())))
